@@ -13,6 +13,7 @@ from .monitors_transform import product_tensor, parse, pristine
 P = 'C16'
 ARR_TRACE = None
 LAST_NOISE = 0.0  # largest rounding-noise estimate of the micro problems of the last arr call
+LAST_UNDECIDED = False  # the last arr call had a cut-off below the rounding level on a rank-deficient micro problem
 
 
 def unfold_spectra(T):
@@ -154,9 +155,11 @@ class ArrUpdate(probe.Contract):
             sol = np.linalg.lstsq(M.T, rhs, rcond=None)[0]
             r = float(np.linalg.norm(M.T @ sol - rhs))
             noise = 1e-14 * float(np.linalg.norm(M)) * float(np.linalg.norm(sol))
+            sv = np.linalg.svd(M, compute_uv=False)
+            smin_rel = float(sv[-1] / sv[0]) if sv.size and sv[0] > 0 else 0.0
         except Exception:
-            r, noise = None, 0.0
-        ARR_TRACE.append({'i': i, 'dir': args[-1], 'res': r, 'rhs_id': hash(rhs.tobytes()), 'noise': noise, 'rhs_norm': float(np.linalg.norm(rhs))})
+            r, noise, smin_rel = None, 0.0, 0.0
+        ARR_TRACE.append({'i': i, 'dir': args[-1], 'res': r, 'rhs_id': hash(rhs.tobytes()), 'noise': noise, 'rhs_norm': float(np.linalg.norm(rhs)), 'smin_rel': smin_rel})
         return None
 
 
@@ -201,9 +204,16 @@ class Arr(ApiImmut):
         if feasible and not isinstance(g, list):
             c.check(self.api, 'ranks_of_guess_kept', all(list(t.ranks) == list(gs.ranks) for t, gs in zip(res, guesses)), tags,
                     {'guess': [list(gs.ranks) for gs in guesses][:2], 'result': [list(t.ranks) for t in res][:2]}, prop=P)
-        global LAST_NOISE
+        global LAST_NOISE, LAST_UNDECIDED
         LAST_NOISE = max([ev['noise'] for ev in (trace or [])] + [0.0])
+        LAST_UNDECIDED = False
         if v['rcond'] > 1e-10 or trace is None:
+            return
+        if v['rcond'] < 1e-15 and any(ev['smin_rel'] < 1e-8 for ev in trace):
+            # a cut-off below the rounding level (exactly 0 in particular) inverts numerically vanishing singular values of a micro
+            # problem that has no full column rank: the pseudoinverse is not determined there; decided only on full-rank micro problems
+            LAST_UNDECIDED = True
+            c.skip('arr_cutoff_below_rounding_level_on_rank_deficient_micro_problem')
             return
         # M7: residuals of successive micro-steps non-increasing (per output row)
         seg = {}
